@@ -30,6 +30,10 @@ pub fn gen_case(rng: &mut Rng, idx: usize, thorough: bool) -> Value {
            "vocab_kind": (idx + idx / 3) % 3, "canonical": false, "seed": rng.next() % 1_000_000_000, "steps": if thorough { 40 } else { 24 }})
 }
 
+fn bytes_len(m: &Matcher) -> usize {
+    m.verif_token_parser().map(|tp| tp.final_bytes().len()).unwrap_or(0)
+}
+
 fn lens(m: &Matcher) -> Option<String> {
     let tp = m.verif_token_parser()?;
     let st = tp.parser.verif_state();
@@ -96,6 +100,7 @@ pub fn run_case(_ctx: &Ctx, case: &Value, tag: usize, rep: &mut Report, mb: &mut
                             let Ok(al) = eng::mask_of(&mut f) else { break };
                             if al.is_empty() { break; }
                             let t = *rng.pick(&al);
+                            let pre_bytes = bytes_len(&m);
                             let ra = m.consume_token(t).is_ok();
                             let rb = f.consume_token(t).is_ok();
                             oplog.push(format!("b{t}"));
@@ -111,7 +116,8 @@ pub fn run_case(_ctx: &Ctx, case: &Value, tag: usize, rep: &mut Report, mb: &mut
                                     mb.push(format!("rb tok {t} {}", hex_or_underscore(&w.words[t as usize])), "ok".into(), tag);
                                 }
                                 if let Some(l) = lens(&m) {
-                                    if t == w.eos {
+                                    // an EOS that ended the sequence adds no bytes; an EOS id the grammar consumed as a token does
+                                    if t == w.eos && bytes_len(&m) == pre_bytes {
                                         let extra = eng::vstate(&m).map(|st| st.lexer_stack_top_eos as u8).unwrap_or(0);
                                         mb.push(format!("rb e {t} {extra}"), format!("ok {l}"), tag)
                                     } else {
@@ -166,6 +172,7 @@ pub fn run_case(_ctx: &Ctx, case: &Value, tag: usize, rep: &mut Report, mb: &mut
             let has_eos = allowed.binary_search(&w.eos).is_ok();
             let t = if has_eos && rng.chance(1, 4) { w.eos } else if !non_eos.is_empty() && rng.chance(5, 6) { *rng.pick(&non_eos) } else { *rng.pick(&allowed) };
             oplog.push(format!("c{t}"));
+            let pre_bytes = bytes_len(&m);
             if m.consume_token(t).is_err() {
                 rep.fail("oracle", "c12:commit-of-masked-token-failed", format!("step {step}: token {t} from the mask rejected"), json!({"case": case, "tokens": toks, "ops": oplog}));
                 break;
@@ -178,7 +185,7 @@ pub fn run_case(_ctx: &Ctx, case: &Value, tag: usize, rep: &mut Report, mb: &mut
                 }
                 match lens(&m) {
                     Some(l) => {
-                        if t == w.eos {
+                        if t == w.eos && bytes_len(&m) == pre_bytes {
                             let extra = eng::vstate(&m).map(|st| st.lexer_stack_top_eos as u8).unwrap_or(0);
                             mb.push(format!("rb e {t} {extra}"), format!("ok {l}"), tag)
                         } else {
